@@ -506,6 +506,11 @@ class Binding:
             sl = m.scatterer_from_parameters(bylist)
             if not (sd == sl):
                 fail("DictAndListAgree", {"dict": repr(sd), "list": repr(sl)})
+            # two scatterers built by one model are two objects all the way down (prior objects apart: none here);
+            # nor do they hold anything of the model's own maps
+            common = (mutable_ids(sd) & mutable_ids(sl)) | (mutable_ids(sd) & mutable_ids(getattr(m, "_maps", {})))
+            if common:
+                fail("NoSharedMutableState", {"why": "two builds from one model share mutable containers", "n_shared": len(common)})
         except Exception as e:
             fail("SubstituteRuns", {"exc": repr(e)})
         # initial guess uses each prior's guess
